@@ -117,10 +117,10 @@ Print Assumptions C14_leaf_build_step.
 From Coq Require Import List String.
 Import ListNotations.
 Theorem C14_leaf_reads_relocs :
-  Leaf.L_base_relocs_Block_rva_of_args = ["self.image.VirtualAddress : u32"%string; "word : u16"%string] /\
-  Leaf.L_base_relocs_Block_type_of_args = ["word : u16"%string] /\
-  Leaf.L_base_relocs_encode_type_offset_args = ["base : u32"%string; "rva : u32"%string; "ty : u8"%string] /\
-  Leaf.L_base_relocs_build__start_args = ["rvas[0] : u32"%string] /\
-  Leaf.L_base_relocs_build__end_args = ["rvas[0] : u32"%string].
+  Leaf.L_base_relocs_Block_rva_of_args = ["self.image.VirtualAddress : u32"%string; "arg1 : u16"%string] /\
+  Leaf.L_base_relocs_Block_type_of_args = ["arg1 : u16"%string] /\
+  Leaf.L_base_relocs_encode_type_offset_args = ["arg1 : u32"%string; "arg2 : u32"%string; "arg3 : u8"%string] /\
+  Leaf.L_base_relocs_build__start_args = ["arg1[0] : u32"%string] /\
+  Leaf.L_base_relocs_build__end_args = ["arg1[0] : u32"%string].
 Proof. exact LeafRelocs.leaf_reads_relocs. Qed.
 Print Assumptions C14_leaf_reads_relocs.
